@@ -196,6 +196,19 @@ func (qt *quotaTopology) checkParentQuotaInfo(quotaName, parentName string) erro
 		if !parentInfo.IsParent {
 			return fmt.Errorf("%v has parentName %v but the parentQuotaInfo's IsParent is false", quotaName, parentName)
 		}
+		// the quota must not become a descendant of itself: walk up from the new parent to the root.
+		ancestor := parentInfo
+		for i := 0; i <= len(qt.quotaInfoMap); i++ {
+			if ancestor.Name == quotaName {
+				return fmt.Errorf("%v has parentName %v but %v is a descendant of %v, the quota tree would have a cycle",
+					quotaName, parentName, parentName, quotaName)
+			}
+			next, ok := qt.quotaInfoMap[ancestor.ParentName]
+			if !ok {
+				break
+			}
+			ancestor = next
+		}
 	}
 	return nil
 }
